@@ -1166,6 +1166,7 @@ pub fn gen_c06(rng: &mut Rng, tier: &str, out: &mut Out) {
 pub fn gen_c07(rng: &mut Rng, tier: &str, out: &mut Out) {
     let th = thorough(tier);
     trace_threshold_ops(out, false, th);
+    reremap_ops(out, rng, if th { 100 } else { 15 });
     let n = if th { 12000 } else { 1000 };
     for i in 0..n {
         let text = if i % 6 == 0 { Vec::new() } else { domain_mapping(rng, &Cfg::domain()) };
@@ -1223,8 +1224,48 @@ fn trace_threshold_ops(out: &mut Out, typ: bool, th: bool) {
     }
 }
 
+/// Mappings on which remapping is NOT idempotent: a kept class (`K -> K`) whose kept method `run`
+/// has an inline group at line `a`, and whose outer original line lies inside the obfuscated range
+/// of another entry of `run` with a shift.  Remapping a frame of the result a second time changes
+/// it, so a typed remapper that looks at an already remapped frame again shows.
+pub fn reremap_ops(out: &mut Out, rng: &mut Rng, n: usize) {
+    for _ in 0..n {
+        let a = rng.range(1, 9);
+        let s = rng.range(10, 30);
+        let e = s + rng.range(1, 20);
+        let o = rng.range(s, e);
+        let os = s + rng.range(1, 40);
+        let h = rng.range(1, 99);
+        let two = rng.pct(40);
+        let mut t = String::from("app.K -> app.K:\n");
+        if rng.pct(50) {
+            t.push_str("# {\"id\":\"sourceFile\",\"fileName\":\"K.java\"}\n");
+        }
+        t.push_str(&format!("    {a}:{a}:void lib.Util.helper():{h}:{h} -> run\n"));
+        if two {
+            t.push_str(&format!("    {a}:{a}:void lib.Mid.mid():{}:{} -> run\n", h + 1, h + 1));
+        }
+        t.push_str(&format!("    {a}:{a}:void run():{o} -> run\n"));
+        t.push_str(&format!("    {s}:{e}:void run():{os}:{} -> run\n", os + (e - s)));
+        if rng.pct(50) {
+            t.push_str("lib.Util -> lib.Util:\n    void helper() -> helper\n");
+        }
+        map_op(out, true, t.as_bytes());
+        let k = hxs("app.K");
+        let r = hxs("run");
+        out.d(format!("TYPS E {} - F {} {} {} {}", hxs("x.Boom"), k, r, a, hxs("K.java")));
+        out.d(format!("TYPS N F {} {} {} {} F {} {} {} {} C E {} {} F {} {} {} {}", k, r, a, hxs("K.java"), k, r, o, hxs("K.java"), hxs("app.K"), hxs("m"), k, r, a, hxs("SourceFile")));
+        let txt = format!("x.Boom: m\n    at app.K.run(K.java:{a})\n    at app.K.run(K.java:{o})\nCaused by: app.K\n    at app.K.run(SourceFile:{a})\n");
+        out.d(format!("TYP {}", hxs(&txt)));
+        out.d(format!("TXT {}", hxs(&txt)));
+        out.d(format!("FRL {} {} {} -", k, r, a));
+        out.count("non_idempotent_mappings");
+    }
+}
+
 pub fn gen_c08(rng: &mut Rng, tier: &str, out: &mut Out) {
     let th = thorough(tier);
+    reremap_ops(out, rng, if th { 200 } else { 30 });
     let n = if th { 12000 } else { 1000 };
     for _ in 0..n {
         let text = domain_mapping(rng, &Cfg::domain());
